@@ -144,7 +144,7 @@ def build_source(items, prune=False):
         lt = "<'a>" if olt else ""
         body.append("    impl%s %s%s {\n        %s\n    }" % (lt, owner, lt, "\n        ".join(impls[(owner, olt)])))
     body_txt = "\n".join(body)
-    if prune:
+    if prune and not any(it.fam == "prelude" for it in items):
         need = set()
         todo = [n for n, _ in PRELUDE_DECLS if n in _refs(body_txt)]
         while todo:
@@ -220,6 +220,11 @@ def shape(t, lts=False):
 
 def item_class(it):
     """Shape class of an item: what the violation key says about the input."""
+    parts = item_parts(it)
+    return ",".join(parts) if parts else "empty module"
+
+
+def item_parts(it):
     parts = []
     m = it.m
     if m:
@@ -249,7 +254,7 @@ def item_class(it):
             mm = re.search(r"attr\(([^,]+),\s*(\w+)", mt)
             if mm:
                 parts.append("helper type with attr=%s" % mm.group(2))
-    return ",".join(parts) if parts else "empty module"
+    return parts
 
 
 # ---------------------------------------------------------------------------------------------
@@ -311,7 +316,15 @@ def _simplifiers():
     return [str_to_slice, unmut, prim_u8, fnmut, ffi_slice, box_slice, dopt, unfresh, unnest]
 
 
+def coarse_parts(it):
+    return item_parts(_coarse(it))
+
+
 def coarse_class(it):
+    return item_class(_coarse(it))
+
+
+def _coarse(it):
     """grouping class: item_class of the item with every canonicalising rewrite applied (prims, slice spellings, mutability,
     DiplomatOption/Option, fresh types of a prelude kind); only used to pick representatives and to schedule runs"""
     c = it.clone()
@@ -322,7 +335,7 @@ def coarse_class(it):
                 c.m["ret"] = _map_term(c.m["ret"], f)
         for td in c.types:
             td["fields"] = [(n, _map_term(t, f)) for n, t in td["fields"]]
-    return item_class(c)
+    return c
 
 
 def subterm_replacements(t, root_unit=False):
@@ -829,6 +842,7 @@ def fam_e(b, thorough):
 def enumerate_items(tier):
     thorough = tier == "thorough"
     b = Builder()
+    b.add("prelude", pos="whole prelude")       # the only item rendered with every prelude type, used or not
     fam_a(b, 3 if thorough else 2)
     fam_b(b)
     fam_c(b, thorough)
